@@ -1,0 +1,13 @@
+//go:build verif
+
+// Round 4, area B: statsd.HostKey (used by nsqd.New to build the statsd prefix). Checked by nsqvc. Comment-only file.
+
+package statsd
+
+// HostKey replaces '.' and ':' by '_': a non-empty host gives a non-empty key (nsqd.New indexes the last byte of the prefix built
+// from it). Uses the library fact on strings.Replace stated in .trusted/gmeta.spec.
+//@ func HostKey(h string) string
+//@   props C06
+//@   nochan
+//@   ensures[non-empty-stays-non-empty] len(h) > 0 ==> len(result) > 0
+//@   modifies
